@@ -14,6 +14,7 @@ def main():
     ap.add_argument('--props', default='')
     ap.add_argument('--all', action='store_true')
     ap.add_argument('--skip-tests', action='store_true')
+    ap.add_argument('--out', default='result.json')
     a = ap.parse_args()
     d = os.path.abspath(a.dir)
     meta = json.load(open(os.path.join(d, 'meta.json')))
@@ -71,9 +72,11 @@ def main():
         sh('git -C /repo worktree remove --force %s' % wt)
         sh('git -C /repo worktree prune')
         # restore the build of the verif copy to the real repository
-        sh('cd %s && ./build.sh' % a.verif)
+        pass   # the next run rebuilds against its own tree; run ./build.sh by hand to restore
 
 if __name__ == '__main__':
     r = main()
     print(json.dumps(r, indent=1))
-    json.dump(r, open(os.path.join(os.path.abspath(sys.argv[1]), 'result.json'), 'w'), indent=1)
+    out = 'result.json'
+    if '--out' in sys.argv: out = sys.argv[sys.argv.index('--out') + 1]
+    json.dump(r, open(os.path.join(os.path.abspath(sys.argv[1]), out), 'w'), indent=1)
